@@ -370,6 +370,7 @@ class StubsLib(StubsBase):
             "dtype": Stub(lambda c, x: self.to_dtype(x), "np.dtype"),
             "s_": NS("np.s_", {}),
             "matmul": NS("ufunc:matmul", {"nin": 2, "nout": 1}),
+            "searchsorted": Stub(self.np_searchsorted, "np.searchsorted"),
             "shares_memory": Stub(lambda c, a, b: bool(a.owner & b.owner), "np.shares_memory"),
         })
         attrs["s_"].is_index_exp = True
@@ -517,6 +518,24 @@ class StubsLib(StubsBase):
             r = A.elementwise(ctx, f, [a, b], DType("bool"))
             return self.forall_elems(ctx, r, lambda e: e, "allclose")
         return V.simp(f(a, b))
+
+    def np_searchsorted(self, ctx, a, v, side="left"):
+        """np.searchsorted(a, v) for a *sorted* 1-d array of concrete length: number of elements < v."""
+        ctx.note("stub:np.searchsorted(sorted a, v, 'left') = #{i: a[i] < v}")
+        if not isinstance(a, SArr) or a.ndim != 1 or is_sym(a.shape[0]):
+            raise Unsupported("searchsorted operand")
+        n = a.shape[0]
+        for i in range(n - 1):
+            ctx.oblige("np.searchsorted.argument-sorted", V.le(a.elem((i,)), a.elem((i + 1,))), "safety")
+
+        def count(x):
+            tot = 0
+            for i in range(n):
+                tot = V.add(tot, V.Ite(V.lt(a.elem((i,)), x) if side == "left" else V.le(a.elem((i,)), x), 1, 0))
+            return V.simp(tot)
+        if isinstance(v, SArr):
+            return A.elementwise(ctx, count, [v], DType("int64"))
+        return count(v)
 
     def np_all(self, ctx, x):
         if isinstance(x, SArr):
@@ -801,6 +820,11 @@ class StubsLib(StubsBase):
         return super().abs_hook(v, ctx)
 
     def iterate(self, v, ctx):
+        if isinstance(v, STime) and not v.is_scalar:
+            n = v.sec.shape[0]
+            if is_sym(n) or v.sec.ndim != 1:
+                raise Unsupported("iteration over a Time array of symbolic length")
+            return [STime(v.sec.elem((k,)), v.fmt, v.precision) for k in range(n)]
         if isinstance(v, SArr):
             if v.ndim == 0:
                 raise PyExc("TypeError", "iteration over a 0-d array")
@@ -827,6 +851,9 @@ class StubsLib(StubsBase):
                 raise PyExc("TypeError", "scalar Quantity is not subscriptable")
             r = self.getitem(base.val, idx, ctx)
             return Qty(r, base.dim, base.unit)
+        if isinstance(base, STime) and not base.is_scalar:
+            r = self.getitem(base.sec, idx, ctx)
+            return STime(r, base.fmt, base.precision)
         if isinstance(base, NS) and getattr(base, "is_index_exp", False):
             return idx
         if isinstance(base, Obj):
